@@ -59,7 +59,7 @@ def run_merge_cases(res, props, report_prop, known_kinds, quick=(24, 30, 10), th
                 continue
             fid = None
             for prefix, f in known_kinds.items():
-                if kind.startswith(prefix):
+                if common.kind_matches(kind, prefix):
                     fid = f
             if fid:
                 res.known_hit(fid)
